@@ -39,8 +39,16 @@ theorem SlotInv.step (hQ : GateConseq Q) {mi : Nat} {s t : Fw σ} (hI : SlotInv 
     | fault => simpa using hI i a (by simpa using hia)
     | rng => exact hI i a hia
     | signal => exact hI i a hia
-    | zeroA => exact hI i a hia
-    | zeroB => exact hI i a hia
+    | setState x hx | setLimit l | setCtrA v | setCtrB v | zeroA | zeroB =>
+      obtain ⟨m, r, hm, hr, hq⟩ := hI i a (by simpa using hia)
+      have hacct := hf.acct
+      rw [hr] at hacct
+      cases hr' : (Fw.modRt s i _).rt[i]? with
+      | none => rw [hr'] at hacct; simp at hacct
+      | some r' =>
+        rw [hr'] at hacct
+        have : r'.acct = r.acct := by simpa using hacct
+        exact ⟨m, r', by simpa using hm, rfl, by rw [this]; simpa using hq⟩
     | clear hlen =>
       rcases set_getElem?_some _ _ _ _ _ hia with ⟨_, h2⟩ | ⟨h1, _⟩
       · cases h2
@@ -54,16 +62,6 @@ theorem SlotInv.step (hQ : GateConseq Q) {mi : Nat} {s t : Fw σ} (hI : SlotInv 
         have := hQ s.g m r₁ st act i tmo dur (by rw [hcur]; exact hst) hact hb
         rw [hacct] at this; exact this
       · exact absurd rfl h1
-    | setState x hx | setLimit l | setCtrA v | setCtrB v =>
-      obtain ⟨m, r, hm, hr, hq⟩ := hI i a (by simpa using hia)
-      have hacct := hf.acct
-      rw [hr] at hacct
-      cases hr' : (Fw.modRt s i _).rt[i]? with
-      | none => rw [hr'] at hacct; simp at hacct
-      | some r' =>
-        rw [hr'] at hacct
-        have : r'.acct = r.acct := by simpa using hacct
-        exact ⟨m, r', by simpa using hm, rfl, by rw [this]; simpa using hq⟩
   · obtain ⟨m, r, hm, hr, hq⟩ := hI i a (by rw [← hf.actOther i hi]; exact hia)
     exact ⟨m, r, by rw [hf.machines]; exact hm, by rw [hf.rtOther i hi]; exact hr, by rw [hf.g]; exact hq⟩
 
